@@ -365,3 +365,77 @@ def close_order(m, meta):
         keep.clear()
         shutil.rmtree(tmp, ignore_errors=True)
     return {"reproduced": bool(problems), "input": "partial iteration, then image.close() / iterator.close() in both orders", "observed": problems[:4]}
+
+
+def anim_fallback(m, meta):
+    """iterm2 style, native animation requested ("+A" in the specifier, or the instance's render method): frames of an iteration, a
+    still draw of a frame and a non-animated image cannot be served natively and fall back to WHOLE-image frames - exactly one
+    graphics command per frame, carrying that frame's picture"""
+    import base64, io, re, warnings
+    import tests  # noqa: F401
+    import term_image.geometry as G
+    from PIL import Image
+    from term_image.image import ITerm2Image, ImageIterator
+    warnings.simplefilter("ignore")
+    problems = []
+    saved = (ITerm2Image._supported, getattr(ITerm2Image, "_TERM", None))
+    cmd = re.compile(r"\x1b\]1337;File=([^:]*):([^\x07\x1b]*)(?:\x07|\x1b\\)")
+    colours = [(200, 10, 10), (10, 200, 10), (10, 10, 200), (200, 200, 10)]
+
+    def gif(n):
+        fr = [Image.new("RGB", (60, 40), colours[i]) for i in range(n)]
+        buf = io.BytesIO()
+        if n > 1:
+            fr[0].save(buf, "GIF", save_all=True, append_images=fr[1:], duration=50)
+        else:
+            fr[0].save(buf, "PNG")
+        buf.seek(0)
+        return Image.open(buf)
+
+    def check(label, text, colour, lines):
+        cmds = cmd.findall(text)
+        if len(cmds) != 1:
+            problems.append({"case": label, "graphics commands in the frame": len(cmds), "expected": "1 (a whole-image frame)"})
+            return
+        keys = dict(kv.split("=", 1) for kv in cmds[0][0].split(";") if "=" in kv)
+        try:
+            px = Image.open(io.BytesIO(base64.b64decode(cmds[0][1]))).convert("RGB")
+            mid = px.getpixel((px.width // 2, px.height // 2))
+            n_frames = getattr(Image.open(io.BytesIO(base64.b64decode(cmds[0][1]))), "n_frames", 1)
+        except Exception as e:  # noqa: BLE001
+            problems.append({"case": label, "payload": f"does not decode: {e}"})
+            return
+        if keys.get("height") != str(lines) or n_frames != 1 or any(abs(a - b) > 12 for a, b in zip(mid, colour)):
+            problems.append({"case": label, "height key": keys.get("height"), "expected height": lines, "frames in the payload": n_frames,
+                             "centre pixel": mid, "expected about": colour})
+    try:
+        ITerm2Image._supported = True
+        tests.set_cell_size(G.Size(5, 10))
+        for term in ("iterm2", "wezterm", "konsole"):
+            ITerm2Image._TERM = term
+            for how in ("spec", "instance-method"):
+                spec = "1.1+A" if how == "spec" else "1.1"
+                for repeat, cached in ((1, False), (2, True)):
+                    image = ITerm2Image(gif(4))
+                    image.set_size(height=4)
+                    if how != "spec":
+                        image.set_render_method("anim")
+                    for i, frame in enumerate(ImageIterator(image, repeat, spec, cached)):
+                        check(f"{term}, {how}, iteration frame {i} (repeat={repeat}, cached={cached})", frame, colours[i % 4], 4)
+                        if problems:
+                            break
+                    if problems:
+                        break
+                # a non-animated image asked for native animation
+                still = ITerm2Image(gif(1))
+                still.set_size(height=4)
+                if how != "spec":
+                    still.set_render_method("anim")
+                check(f"{term}, {how}, non-animated image", format(still, spec), colours[0], 4)
+                if problems:
+                    break
+            if problems:
+                break
+    finally:
+        ITerm2Image._supported, ITerm2Image._TERM = saved
+    return {"reproduced": bool(problems), "input": "iterm2 style with native animation requested: iteration frames and a still image, three terminals", "observed": problems[:3]}
